@@ -36,7 +36,77 @@ ALL_LABELS = ['x', 'y', 'z', 'r', 'theta', 'phi']
 
 
 def jobs(tier):
-    return [(c, tier) for c in MESH_CLASSES]
+    out = [(c, tier) for c in MESH_CLASSES]
+    table = F.QUICK_SMALL_SIZES if tier == 'quick' else F.SMALL_SIZES
+    for c in MESH_CLASSES:
+        for sz in table[DIM[c]]:
+            out.append((c, tier, sz))
+    return out
+
+
+def small_job(cls, tier, sizes):
+    """concrete cell counts (down to one cell per axis), symbolic face positions: every index, both constructor forms"""
+    sm = SourceModel()
+    obs = []
+    ci = sm.cls(cls)
+
+    def ob(rule, construct, ok, detail=''):
+        obs.append(dict(rule=rule, construct=construct, ok=bool(ok), detail=(f"[{cls} sizes={sizes}] " + str(detail))[:900], loc=ci.loc(), nontrivial=True))
+    for uniform in (False, True):
+        try:
+            w = World(sm, cls, sizes=sizes, uniform=uniform)
+        except AbstractRaise as e:
+            ob('G1' if not uniform else 'G2', f"mesh.{cls}/construct", False, f"constructor raises {e.exc}: {e.msg} ({'(N,L)' if uniform else 'face'} form)")
+            continue
+        d = w.dim
+        rule = 'G2' if uniform else 'G1'
+        for k in range(d):
+            ax = AX[k]
+            n = sizes[k]
+            size = snap(w.mesh.attrs['cellsize'].attrs['_' + ax])
+            cen = snap(w.mesh.attrs['cellcenters'].attrs['_' + ax])
+            fac = snap(w.mesh.attrs['facecenters'].attrs['_' + ax])
+            okshape = all(x.shape[0].is_const() for x in (size, cen, fac)) and (size.shape[0].as_int(), cen.shape[0].as_int(), fac.shape[0].as_int()) == (n + 2, n, n + 1)
+            ob(rule, f"mesh.{cls}/axis={ax}/shapes", okshape, f"lengths {size.shape[0]}, {cen.shape[0]}, {fac.shape[0]}")
+            if not okshape:
+                continue
+            if uniform:
+                L = Rat.atom(('L', ax))
+
+                def fpos(i):
+                    return L * i / n
+            else:
+                def fpos(i, ax=ax):
+                    return f(ax, i)
+            bad = []
+            for c in range(1, n + 1):
+                if not is_zero(size.at((Rat.const(c),)) - (fpos(c) - fpos(c - 1))):
+                    bad.append(f"cellsize[{c}]")
+            if not is_zero(size.at((ZERO,)) - size.at((ONE,))):
+                bad.append('ghost size low')
+            if not is_zero(size.at((Rat.const(n + 1),)) - size.at((Rat.const(n),))):
+                bad.append('ghost size high')
+            for p in range(n):
+                if not is_zero(cen.at((Rat.const(p),)) - (fpos(p) + fpos(p + 1)) / 2):
+                    bad.append(f"cellcenters[{p}]")
+            for i in range(n + 1):
+                if not is_zero(fac.at((Rat.const(i),)) - fpos(i)):
+                    bad.append(f"facecenters[{i}]")
+            ob(rule, f"mesh.{cls}/axis={ax}/small-grid", not bad, f"{'(N,L)' if uniform else 'face-array'} form: wrong entries {bad[:4]}" if bad else f"{'(N,L)' if uniform else 'face-array'} form: all {3 * n + 4} entries")
+        if not uniform:
+            vol = w.volume()
+            for P in itertools.product(*[[Rat.const(i) for i in range(1, n + 1)] for n in sizes]):
+                v = w.vol_at(P)
+                e = expected_volume(cls, P)
+                okv = is_zero(v - e)
+                cons = f"mesh.{cls}._getCellVolumes"
+                if not okv and cls == 'SphericalGrid3D':
+                    pi = Rat.atom(('pi',))
+                    frac = Rat.const(4) / 3 * pi * (f('x', P[0]) ** 3 - f('x', P[0] - 1) ** 3) * ((f('y', P[1]) - f('y', P[1] - 1)) / pi) * ((f('z', P[2]) - f('z', P[2] - 1)) / (2 * pi))
+                    if is_zero(v - frac):
+                        cons += '[theta-weighted-by-dtheta/pi]'
+                ob('G3', cons, okv, f"cell {F.cstr(P)}: cellvolume = {fmt_rat(v, 6)}")
+    return dict(obs=obs, units=[f"mesh.{cls}.__init__"], samples=[])
 
 
 def f(ax, i):
@@ -71,6 +141,8 @@ def expected_volume(cls, P):
 
 
 def job(args):
+    if len(args) > 2:
+        return small_job(*args)
     cls, tier = args
     sm = SourceModel()
     w = World(sm, cls)
